@@ -495,6 +495,21 @@ def c085(ctx, R="C08.5"):
         if f:
             escape_check(ctx, R, f, r"lsmtk::tree::VersionRef<", "the scan's VersionRef is dropped before the cursor is returned: "
                          "compaction can move the snapshot's not-yet-opened SSTs to trash/ (and the verifier unlink them) under a live cursor")
+    # ... and keeps it for as long as it lives: the pin is a plain VersionRef field that is set when the cursor is built and never written
+    # again (an exhausted cursor can still be rewound, and a lazily opened table is re-opened by path)
+    a = ctx.prog.adts.get("lsmtk::tree::PinnedCursor")
+    pins = [fl for v in (a["variants"] if a else []) for fl in v["fields"] if "VersionRef" in fl[1]]
+    ctx.check(R, "lsmtk::tree::PinnedCursor", "pin-field", len(pins) == 1 and strip_generics(pins[0][1]).startswith("lsmtk::tree::VersionRef"),
+              "PinnedCursor holds its VersionRef by value (%s)" % (pins[0][1] if pins else None),
+              "PinnedCursor does not hold a VersionRef by value (%s): a pin that can be absent can be given up while the cursor is still usable" % [p_[1] for p_ in pins])
+    for fl in pins:
+        for g in sorted(ctx.prog.fns.values(), key=lambda g: g.key):
+            if g.crate != "lsmtk":
+                continue
+            for pt in P.field_writes(g, r"tree::PinnedCursor$", fl[0]):
+                ctx.check(R, g, "pin-never-rewritten", False, "",
+                          "%s writes the cursor's version pin after the cursor was built: once the pin is gone the tables the cursor re-opens lazily can be "
+                          "moved to trash under it" % g.skey, pt=pt)
 
 
 # ------------------------------------------------------------------------------------------------
